@@ -70,11 +70,11 @@ class C17(Prop):
                     npts = rng.randint(2, d)
                     P = np.array([[dyad(rng, 0, 8, 8) for _ in range(d)] for _ in range(npts)])
                 elif thin:
-                    # exactly flat (2-D) cloud in R^d, 16 to 64 times longer than wide: a + s u + t v with dyadic coefficients
+                    # exactly flat (2-D) cloud in R^d, 16 to 4096 times longer than wide: a + s u + t v with dyadic coefficients
                     a = np.array([dyad(rng, 1, 3, 4) for _ in range(d)]); u = np.array([float(rng.randint(0, 2)) for _ in range(d)]); v = np.array([float(rng.randint(0, 2)) for _ in range(d)])
                     if not u.any() or not v.any() or np.linalg.matrix_rank(np.vstack([u, v])) < 2:
                         continue
-                    L_ = rng.choice([16.0, 32.0, 64.0])
+                    L_ = rng.choice([16.0, 32.0, 64.0, 256.0, 1024.0, 4096.0])
                     P = np.array([a + (L_ * rng.randint(0, 16) / 16) * u + (rng.randint(0, 8) / 8) * v for _ in range(rng.randint(d + 2, d + 8))])
                     P = np.unique(P, axis=0); kind = "thin"
                 else:
@@ -140,16 +140,27 @@ class C17(Prop):
 
     def run_impl(self, case):
         import dreye
+        # the same geometry in other length units (exact power-of-two rescaling of offsets and points, undone on the result);
+        # chosen from the case's own data so that the generator's random stream is unchanged
+        sc = self.unit(case)
         if case["op"] == "nearest":
-            x = dreye.proj_B_to_hull(np.array([case["b"]]), np.array(case["eqs"]))[0]
-            return {"x": np.asarray(x, dtype=float).tolist()}
+            E = np.array(case["eqs"], dtype=float); E[:, -1] *= sc
+            x = dreye.proj_B_to_hull(np.array([case["b"]], dtype=float) * sc, E)[0]
+            return {"x": (np.asarray(x, dtype=float) / sc).tolist()}
         if case["op"] == "alpha":
-            B = np.array([case["b"]]); E = np.array(case["eqs"])
+            B = np.array([case["b"]], dtype=float) * sc; E = np.array(case["eqs"], dtype=float); E[:, -1] *= sc
             a = dreye.alpha_for_B_with_P(B, E)[0]
             s = dreye.B_with_P(B, E)[0]
-            return {"alpha": (None if np.isnan(a) else float(a)), "scaled": np.asarray(s, dtype=float).tolist()}
+            return {"alpha": (None if np.isnan(a) else float(a)), "scaled": (np.asarray(s, dtype=float) / sc).tolist()}
         out = dreye.proj_P_to_simplex(np.array(case["P"]), case["c"])
         return {"out": np.asarray(out, dtype=float).tolist()}
+
+    @staticmethod
+    def unit(case):
+        if case["op"] == "slice":
+            return 1.0
+        h = int(round(abs(float(np.sum(np.array(case["b"], dtype=float))) * 64))) % 8
+        return {0: 2.0 ** -10, 1: 2.0 ** -20, 2: 2.0 ** -30}.get(h, 1.0)
 
     def emit(self, case, out):
         if "error" in out:
